@@ -4,15 +4,28 @@
    parse() calls in any order, any number of times (C02/Session.v).  Printed: the
    observation of every operation of the program; per smart value the validators
    [wf_grammar] and [hyps_ok] the C02 theorems assume; and (thorough tier only) the internal
-   sets and the table of the objects AS THE PROGRAM LEAVES THEM. *)
+   sets and the table of the objects AS THE PROGRAM LEAVES THEM.
+   Second kind of case (SessionTok, C02/SessionTok.v): the same programs on parsers that are
+   built with a TOKENIZER CONFIGURATION and a skip_tokens argument (None / a collection,
+   possibly empty) and are used on TEXTS: the constructor, the token sequence of a text
+   (tokenizer output minus the skipped tokens) and parse(text) are C01's end-to-end model
+   over the tokenizer model of C04; additionally the model's token sequence of every text
+   is compared with the one the generator rendered the text from. *)
 From Coq Require Import ZArith List Bool.
-From AK Require Export LLP.Build C02.Model C02.Session.
+From AK Require Export LLP.Build C02.Model C02.Session C02.SessionTok.
 From AK Require C01.Run.      (* hyps_ok: C01's validator of the factorization, hypothesis of ll1_reject *)
+From AK Require C01.RunTok.   (* build_cfg / text_tokens / parse_text: the constructor with a tokenizer configuration, parse(text) *)
 Import ListNotations.
 
 Inductive case :=
 | Session2 (ug : list (sym * list (list sym))) (terminals : list sym) (start : sym)
-           (fuel : nat) (inputs : list (list (sym * list Z))) (ops : list op) (diag : bool).
+           (fuel : nat) (inputs : list (list (sym * list Z))) (ops : list op) (diag : bool)
+  (* the same programs on parsers built with a tokenizer configuration and a skip_tokens argument, used on
+     TEXTS (C02/SessionTok.v); [expected]: per text the token sequence (names, values; skipped tokens left
+     out) the GENERATOR rendered the text from -- compared here with the model tokenizer's *)
+| SessionTok (cfg : lexcfg) (skip : option (list sym))
+             (ug : list (sym * list (list sym))) (start : sym) (fuel : nat)
+             (texts : list (list Z)) (expected : list sx) (ops : list op) (diag : bool).
 
 Definition sx_keyed_sets (keys : list sym) (m : setmap) : sx :=
   sx_list (fun k => SL [sx_str k; sx_list sx_str (sort_syms (sm_get m k))]) (sort_syms keys).
@@ -37,8 +50,35 @@ Definition run_validators (ug : list (sym * list (list sym))) (terminals : list 
           sx_bool (C01.Run.hyps_ok ug start p)]
   end.
 
+Definition run_validators_t (cfg : lexcfg) (skip : option (list sym)) (ug : list (sym * list (list sym)))
+           (start : sym) (smart : bool) : sx :=
+  match t_build cfg skip ug start smart with
+  | Err e => SL [SZ 1; SZ (err_code e)]
+  | Ok p =>
+      SL [SZ 0; sx_bool (wf_grammar (p_grammar p) (p_terminals p) (p_start p));
+          sx_bool (C01.Run.hyps_ok ug start p)]
+  end.
+
+(* () when the model's token sequence of the text is the generator's, otherwise (-1 model's) *)
+Fixpoint check_tokens (cfg : lexcfg) (skip : option (list sym)) (texts : list (list Z)) (expected : list sx) : list sx :=
+  match texts, expected with
+  | tx :: texts', e :: expected' =>
+      let m := C01.RunTok.sx_tokens (t_tokens cfg skip tx) in
+      (match C01.RunTok.sx_diff m e with None => SL [] | Some _ => SL [SZ (-1); m] end)
+        :: check_tokens cfg skip texts' expected'
+  | [], [] => []
+  | _, _ => [SL [SZ (-2)]]
+  end.
+
 Definition run (c : case) : sx :=
   match c with
+  | SessionTok cfg skip ug start fuel texts expected ops diag =>
+      let '(bs, Wf) := session_t_w cfg skip ug start fuel texts no_objects ops in
+      SL [SL (map sx_obs bs);
+          run_validators_t cfg skip ug start false;
+          run_validators_t cfg skip ug start true;
+          (if diag then SL [sx_diag_obj (w_plain Wf); sx_diag_obj (w_smart Wf)] else SL []);
+          SL (check_tokens cfg skip texts expected)]
   | Session2 ug terminals start fuel inputs ops diag =>
       let '(bs, Wf) := session_w ug terminals start fuel inputs no_objects ops in
       SL [SL (map sx_obs bs);
